@@ -45,14 +45,15 @@ func SingleFile(content []byte) Project {
 }
 
 type RunResult struct {
-	Panic  string   // non-empty: the library panicked (recovered here)
-	Stack  string   // stack of the panic
-	Err    *ErrInfo // rejected
-	JSON   []byte   // accepted: compact JSON
-	Indent []byte
-	JSErr  string // serialisation error
-	Core   *core.JApiCore
-	Dir    string // scratch directory ("" for in-memory)
+	LibFault string   // stack recorded by the overlay of the library's panic handler when it swallowed a runtime fault
+	Panic    string   // non-empty: the library panicked (recovered here)
+	Stack    string   // stack of the panic
+	Err      *ErrInfo // rejected
+	JSON     []byte   // accepted: compact JSON
+	Indent   []byte
+	JSErr    string // serialisation error
+	Core     *core.JApiCore
+	Dir      string // scratch directory ("" for in-memory)
 }
 
 func errInfo(je *jerr.JApiError, dir string) *ErrInfo {
